@@ -40,3 +40,7 @@ func (c *ConcCtx) syncMisc(e *Exec, st *State, fn *Func, name string, args []Val
 func newConc(e *Exec) *ConcCtx { return &ConcCtx{} }
 func (c *ConcCtx) runMain(e *Exec, st *State, fn *ssa.Function) { fail("concurrency mode not built yet") }
 func (c *ConcCtx) finish(e *Exec, res *HarnessResult) {}
+
+func (c *ConcCtx) registerDeadline(e *Exec, st *State, p Ptr, d *Term) {}
+func (c *ConcCtx) ctxCancel(e *Exec, st *State, p Ptr, site string) []Outcome { return ret(st) }
+func (c *ConcCtx) ctxErr(e *Exec, st *State, ctx Value, site string) []Outcome   { return ret(st, Iface{}) }
